@@ -1687,7 +1687,9 @@ fn tagfilter(literal: &[u8]) -> bool {
         crate::verif::step();
         if rest.len() > t.len() && rest[..t.len()].eq_ignore_ascii_case(t.as_bytes()) {
             let j = i + t.len();
-            return isspace(literal[j])
+            // A tag name ends at any of the six GFM whitespace characters
+            // (space, tab, LF, VT, FF, CR), as in cmark-gfm's is_tag.
+            return matches!(literal[j], b' ' | b'\t' | b'\n' | 0x0b | 0x0c | b'\r')
                 || literal[j] == b'>'
                 || (literal[j] == b'/' && literal.len() >= j + 2 && literal[j + 1] == b'>');
         }
